@@ -1750,6 +1750,35 @@ Proof.
 Qed.
 
 (* ------------------------------------------------------------------ multAdd(x, SVectorBase) *)
+Lemma ss_ok_weaken eps eps' s : eps <= eps' -> ss_ok eps s -> ss_ok eps' s.
+Proof.
+  intros Hle Hok Hs. destruct (Hok Hs) as (H1 & H2 & H3). split; [exact H1|]. split; [exact H2|].
+  intros i Hi Hnz. destruct (H3 i Hi Hnz) as [H|H]; [left; exact H | right].
+  apply (Qle_trans _ eps); assumption.
+Qed.
+
+Lemma fold_tiny_length eps (l : list nat) : forall d,
+  length (fold_left (fun d' k => if qle_bool (qabs (dv_get d' k)) eps then dv_set d' k 0 else d') l d) = length d.
+Proof.
+  induction l as [|j r IH]; intros d; cbn [fold_left]; [reflexivity|]. rewrite IH.
+  destruct (qle_bool (qabs (dv_get d j)) eps); [apply dv_set_length | reflexivity].
+Qed.
+
+(* the adjust pass: indexed entries with |value| <= eps become exact zeros, nothing else changes *)
+Lemma fold_tiny_get eps (l : list nat) : forall d k, (k < length d)%nat ->
+  dv_get (fold_left (fun d' k => if qle_bool (qabs (dv_get d' k)) eps then dv_set d' k 0 else d') l d) k
+  = if memb k l && qle_bool (qabs (dv_get d k)) eps then 0 else dv_get d k.
+Proof.
+  induction l as [|j r IH]; intros d k Hk; cbn [fold_left existsb]; [reflexivity|].
+  rewrite (Nat.eqb_sym k j). destruct (qle_bool (qabs (dv_get d j)) eps) eqn:Hq.
+  - rewrite IH by (rewrite dv_set_length; exact Hk). destruct (Nat.eqb_spec j k) as [E|E]; cbn [orb].
+    + subst. rewrite dv_get_set_same by exact Hk. rewrite Hq. cbn [andb].
+      destruct (memb k r && qle_bool (qabs 0) eps); reflexivity.
+    + rewrite dv_get_set_other by exact E. reflexivity.
+  - rewrite IH by exact Hk. destruct (Nat.eqb_spec j k) as [E|E]; cbn [orb]; [|reflexivity].
+    subst. rewrite Hq. rewrite !andb_false_r. reflexivity.
+Qed.
+
 Definition ss_idx_nonzero (s : ssvec) : Prop := forall i, In i (ss_idx s) -> ~ dv_get (ss_val s) i == 0.
 
 Lemma ss_multadd_step_eq eps x j y d idx marked : existsb (Nat.eqb j) marked = false ->
@@ -1843,9 +1872,10 @@ Proof.
 Qed.
 
 (* multAdd keeps the vector consistent when, before the call, every non-zero is indexed and every indexed
-   value is non-zero (the state setup() produces); ss_ok eps alone is not enough, see the two refutations *)
-Lemma ss_multadd_sv_ok : forall eps x v s, 0 <= eps -> ss_ok 0 s -> ss_idx_nonzero s ->
-  sv_nodup v -> sv_in_dim (ss_dim s) v -> ss_ok eps (ss_multadd_sv eps x v s).
+   value is non-zero (the state setup() produces); ss_ok eps alone is not enough, see the two refutations.
+   The result again has every non-zero indexed (ss_ok 0), whatever eps is. *)
+Lemma ss_multadd_sv_ok0 : forall eps x v s, 0 <= eps -> ss_ok 0 s -> ss_idx_nonzero s ->
+  sv_nodup v -> sv_in_dim (ss_dim s) v -> ss_ok 0 (ss_multadd_sv eps x v s).
 Proof.
   intros eps x v s He Hok Hnz Hnd Hdim. unfold ss_multadd_sv.
   destruct (ss_setup s) eqn:Hs; [|apply ss_ok_unsetup].
@@ -1858,11 +1888,19 @@ Proof.
     intros k Hk Hk0. left. apply Hc; [rewrite <- Hl; exact Hk | exact Hk0].
   - apply ss_ok_mk.
     + apply NoDup_filter'. exact Hnd'.
-    + rewrite Hl. rewrite Forall_forall in *. intros k Hk. apply filter_In in Hk. apply Hdim'. tauto.
-    + intros k Hk Hk0. destruct (qle_bool (qabs (dv_get d k)) eps) eqn:Hq.
-      * right. apply qle_true in Hq. exact Hq.
-      * left. apply filter_In. split; [|rewrite Hq; reflexivity].
-        apply Hc; [rewrite <- Hl; exact Hk | exact Hk0].
+    + rewrite fold_tiny_length, Hl. rewrite Forall_forall in *. intros k Hk. apply filter_In in Hk. apply Hdim'. tauto.
+    + intros k Hk Hk0. rewrite fold_tiny_length in Hk. rewrite fold_tiny_get in Hk0 by exact Hk. left.
+      destruct (memb k idx && qle_bool (qabs (dv_get d k)) eps) eqn:Hcnd; [exfalso; apply Hk0; reflexivity|].
+      assert (Hin : In k idx) by (apply Hc; [rewrite <- Hl; exact Hk | exact Hk0]).
+      apply filter_In. split; [exact Hin|]. apply memb_In in Hin. rewrite Hin in Hcnd. cbn [andb] in Hcnd.
+      rewrite Hcnd. reflexivity.
+Qed.
+
+Lemma ss_multadd_sv_ok : forall eps x v s, 0 <= eps -> ss_ok 0 s -> ss_idx_nonzero s ->
+  sv_nodup v -> sv_in_dim (ss_dim s) v -> ss_ok eps (ss_multadd_sv eps x v s).
+Proof.
+  intros eps x v s He Hok Hnz Hnd Hdim. apply (ss_ok_weaken 0 eps); [exact He|].
+  apply ss_multadd_sv_ok0; assumption.
 Qed.
 
 Lemma ss_multadd_sv_idx_nonzero : forall eps x v s, 0 <= eps -> ss_ok 0 s -> ss_setup s = true ->
@@ -1875,8 +1913,9 @@ Proof.
   destruct st as [[d idx] marked]. destruct Hinv as (Hl & Hnd' & Hdim' & Hm & Hc & Hst).
   destruct marked as [|m ms]; intros k Hk; cbn [ss_idx ss_val] in *.
   - apply Hst; [exact Hk | intros []].
-  - apply filter_In in Hk. destruct Hk as [_ Hk]. apply negb_true_iff in Hk.
-    apply (not_tiny_nonzero eps); assumption.
+  - apply filter_In in Hk. destruct Hk as [Hin Hk]. apply negb_true_iff in Hk.
+    rewrite Forall_forall in Hdim'. rewrite fold_tiny_get by (rewrite Hl; apply Hdim'; exact Hin).
+    rewrite Hk, andb_false_r. apply (not_tiny_nonzero eps); assumption.
 Qed.
 
 (* values: for eps = 0 multAdd is the dense operation *)
@@ -1929,7 +1968,14 @@ Proof.
   - destruct (ss_multadd_fold_val x (ss_val s) (ss_idx s) v Hnd Hdim) as (_ & _ & Hv).
     specialize (Hv i).
     remember (fold_right (ss_multadd_step 0 x) (ss_val s, ss_idx s, []) v) as st eqn:Est.
-    destruct st as [[d idx] marked]. cbn [fst snd] in Hv. destruct marked; exact Hv.
+    destruct st as [[d idx] marked]. cbn [fst snd] in Hv. destruct marked as [|m ms]; [exact Hv|].
+    cbn [ss_val]. destruct (Nat.lt_ge_cases i (length d)) as [Hi|Hi].
+    + rewrite fold_tiny_get by exact Hi.
+      destruct (memb i idx && qle_bool (qabs (dv_get d i)) 0) eqn:Hcnd; [|exact Hv].
+      apply andb_true_iff in Hcnd. destruct Hcnd as [_ Hq]. apply qle_true in Hq. apply Qabs_le0 in Hq.
+      rewrite <- Hv. symmetry. exact Hq.
+    + rewrite dv_get_overflow by (rewrite fold_tiny_length; exact Hi).
+      rewrite dv_get_overflow in Hv by exact Hi. exact Hv.
   - cbn [ss_val]. apply dv_multadd_sv_get; assumption.
 Qed.
 
@@ -1938,7 +1984,8 @@ Proof.
   intros Hnd Hdim. unfold ss_multadd_sv, ss_dim. destruct (ss_setup s).
   - destruct (ss_multadd_fold_val x (ss_val s) (ss_idx s) v Hnd Hdim) as (Hl & _ & _).
     remember (fold_right (ss_multadd_step 0 x) (ss_val s, ss_idx s, []) v) as st eqn:Est.
-    destruct st as [[d idx] marked]. cbn [fst snd] in Hl. destruct marked; exact Hl.
+    destruct st as [[d idx] marked]. cbn [fst snd] in Hl. destruct marked as [|m ms]; [exact Hl|].
+    cbn [ss_val]. rewrite fold_tiny_length. exact Hl.
   - cbn [ss_val]. apply dv_multadd_sv_length.
 Qed.
 
@@ -1975,13 +2022,6 @@ Proof.
 Qed.
 
 (* ------------------------------------------------------------------ small extras *)
-Lemma ss_ok_weaken eps eps' s : eps <= eps' -> ss_ok eps s -> ss_ok eps' s.
-Proof.
-  intros Hle Hok Hs. destruct (Hok Hs) as (H1 & H2 & H3). split; [exact H1|]. split; [exact H2|].
-  intros i Hi Hnz. destruct (H3 i Hi Hnz) as [H|H]; [left; exact H | right].
-  apply (Qle_trans _ eps); assumption.
-Qed.
-
 Lemma ss_new_ok eps n : ss_ok eps (ss_new n).
 Proof.
   unfold ss_new. apply ss_ok_mk; [constructor | constructor |].
